@@ -236,7 +236,7 @@ static Profile profile(const std::string& name, bool T) {
     } else if (name == "rotate-xz") {
         p = profile("rotate", T); p.runs = {{"", S_FILE, 2}, {"", S_FD, 2}}; p.alphabet = {"qr0", "aec0", "mm0", "wb", "rotx", "rotn", "rots", "addbp", "act1"}; p.depth_q = 2; p.depth_t = 3;
     } else if (name == "roundtrip") {
-        p.alphabet = {"qr0", "qr1s1", "qr2", "qr3s2", "qr4", "qr6", "aec0", "aec1s1", "aec1s2", "aec2", "mm0", "mm1s2", "mm3", "wb", "act0", "act1", "rotx"};
+        p.alphabet = {"qr0", "qr1s1", "qr2", "qr3s2", "qr4", "qr6", "aec0", "aec1s1", "aec1s2", "aec2", "mm0", "mm1s2", "mm3", "mm4", "mm5", "wb", "act0", "act1", "rotx"};
         for (int h : {0, 3, 2, 5, 6, 7}) for (uint64_t tps : {1ULL, 1000ULL, 1000000ULL, 1000000000ULL}) for (uint64_t m : {1, 2, 3, 10000}) {   // 6, 7: hint words that keep every other member (the two words differ in every bit)
             if (!T && !((h == 0) || (tps == 1000000 && m == 2) || (h == 3 && tps == 1 && m == 3) || (h == 5 && tps == 1000000000 && m == 10000) || (h == 6 && tps == 1000 && m == 3) || (h == 7 && tps == 1000000 && m == 10000))) continue;
             p.cfgs.push_back({"h" + std::to_string(h) + "_t" + std::to_string(tps) + "_m" + std::to_string(m), {PS(m, tps, h, m == 2), PS(m == 1 ? 2 : 1, tps == 1000 ? 1000000 : 1000, h == 0 ? 3 : 0)}, PS(2, 1000, 0)});
@@ -249,7 +249,8 @@ static Profile profile(const std::string& name, bool T) {
         p.cfgs.push_back({"m2", {PS(2, 1000000, 0), PS(1, 1000, 1, true)}, PS(3, 1000, 0, true)});
         p.cfgs.push_back({"m0", {PS(0, 1000000, 0, 2)}, PS(1, 1000, 0, 3)});   // collection parameters present but empty
         p.cfgs.push_back({"m10000_h4", {PS(10000, 1, 4), PS(2, 1, 2)}, PS(1, 1000, 0)});
-        p.cfgs.push_back({"m2_h6_h7", {PS(2, 1000000, 6), PS(3, 1000, 7)}, PS(1, 1000, 6)});   // hint masks that keep every other member
+        p.cfgs.push_back({"m2_h6_h7", {PS(2, 1000000, 6), PS(3, 1000, 7)}, PS(1, 1000, 6)});
+        p.cfgs.push_back({"m3_emptylists", {PS(3, 1000000, 0, 4)}, PS(1, 1000, 0, 4)});   // opcodes / rr-types present but empty: still mandatory members of the preamble   // hint masks that keep every other member
         p.runs = {{"", S_MEM, 0}}; p.depth_q = 4; p.depth_t = 5;
     } else if (name == "times") {
         p.alphabet = {"qr2", "qr4", "qr3", "qr1", "qr0", "mm0", "mm3", "mm1", "aec0", "act1", "act0", "wb"};
